@@ -228,14 +228,8 @@ class SpaceMixin(object):
         if self._space is None:
             self._wr = WarnRec()
             self._space = twin_space(self._wr)
-            import sys
-            prof = self._space.profile()
-            sys.setprofile(prof)
-            try:
-                for m in self.twin_modules:
-                    self._space.twin(m)
-            finally:
-                sys.setprofile(None)
+            for m in self.twin_modules:
+                self._space.twin(m)
         return self._space
 
     def profiled(self, fn, *a, **k):
@@ -258,3 +252,67 @@ def real_files():
         warnings.simplefilter('ignore')
         from PseudoNetCDF.core import _files as RF
     return RF
+
+
+def compare_expected(out, spec, ref, newlens, claim, check_attrs=True,
+                     varnames=None, tol=None):
+    """compare a result file with the reference (name -> (dims, data, mask))
+    through claim(label, z3 bool); returns observations for validation.
+    tol: None = exact equality; else z3 real tolerance for data cells"""
+    obs = {}
+    for d, n in newlens.items():
+        got = len(out.dimensions[d]) if d in out.dimensions else None
+        obs['len_' + d] = got
+        claim('dimlen:' + d, z3.BoolVal(got == n))
+    unl = dict((d[0], d[2]) for d in spec.dims)
+    bad = wf_problems(out, unl)
+    claim('well-formed', z3.BoolVal(not bad))
+    names = varnames if varnames is not None else [v.name for v in spec.vars]
+    claim('variables-present', z3.BoolVal(
+        list(out.variables.keys()) == list(names)))
+    if check_attrs:
+        for k, a in spec.attrs.items():
+            claim('attrs:global', z3.BoolVal(getattr(out, k, None) == a))
+    for v in spec.vars:
+        if v.name not in out.variables or v.name not in ref:
+            continue
+        ov = out.variables[v.name]
+        edims, ed, em = ref[v.name]
+        obs['dims_' + v.name] = list(ov.dimensions)
+        obs['shape_' + v.name] = list(ov.shape)
+        claim('dims:' + v.name, z3.BoolVal(tuple(ov.dimensions) == edims))
+        if check_attrs:
+            okattr = all(getattr(ov, k, None) == a
+                         for k, a in v.attrs.items())
+            claim('attrs:' + v.name, z3.BoolVal(okattr))
+        if tuple(ov.shape) != tuple(ed.shape):
+            claim('shape:' + v.name, z3.BoolVal(False))
+            continue
+        gm = getmask(ov)
+        obs['mask_' + v.name] = gm.astype(int).ravel().tolist()
+        claim('mask:' + v.name, z3.BoolVal(bool((gm == em).all())))
+        gd = getdata(ov)
+        obs['data_' + v.name] = [None if m else x for x, m in
+                                 zip(gd.ravel().tolist(),
+                                     gm.ravel().tolist())]
+        eqs = []
+        for idx in np.ndindex(*ed.shape):
+            if em[idx] or gm[idx]:
+                continue
+            if tol is None:
+                eqs.append(eq_expr(gd[idx], ed[idx]))
+            else:
+                eqs.append(close_expr(gd[idx], ed[idx], tol))
+        claim('data:' + v.name, z3.And(*eqs) if eqs else z3.BoolVal(True))
+    return obs
+
+
+def close_expr(a, b, tol):
+    if isinstance(a, symx.Sym) or isinstance(b, symx.Sym):
+        d = a - b
+        return z3.And(d.e <= tol, d.e >= -tol)
+    try:
+        return z3.BoolVal(abs(float(a) - float(b)) <= tol *
+                          max(1.0, abs(float(a)), abs(float(b))))
+    except Exception:
+        return z3.BoolVal(False)
